@@ -16,6 +16,11 @@ pub fn main(args: &[String]) {
     let mut rep = Report::default();
     let mut ev: Vec<Value> = vec![];
     match args.first().map(|s| s.as_str()) {
+        Some("f1") => {
+            let path = arg_after(args, "--cases").expect("--cases");
+            let every: u64 = arg_after(args, "--every").map(|s| s.parse().unwrap()).unwrap_or(1);
+            crate::c19_f1::replay(&path, every, &mut ev, &mut rep);
+        }
         Some("cases") => {
             let path = arg_after(args, "--in").expect("--in");
             let cases: Value = serde_json::from_str(&std::fs::read_to_string(path).unwrap()).unwrap();
